@@ -3,8 +3,9 @@
 
   K1  `!==` is the exact negation of `===`; both bound with exactly two operands,
       (operand 0, operand 1) in order;
-  K2  kind-pair matrix of the strict predicate (36 pairs, the pointer-identity
-      shortcut excluded — see K3) equals ECMA-262 IsStrictlyEqual on JSON kinds
+  K2  kind-pair matrix of the strict predicate (36 pairs, read off its decision
+      cases with both kinds fixed — rules/pairs.py decision_matrix — the
+      pointer-identity shortcut excluded, see K3) equals ECMA-262 IsStrictlyEqual on JSON kinds
       (spec/arms/strict_eq.json): only the four diagonal primitive pairs can be
       true — Null constant true, Bool/String by equality of both payloads, Number
       by float Eq of as_f64 of both payloads (so 1 ≡ 1.0, 0 ≡ -0; no integer
@@ -32,7 +33,7 @@ VALUE = "serde_json::Value"
 
 def run(ctx):
     ctx.explanation = __doc__
-    ctx.rule = "instances = 36 kind pairs + negation/binding + freshness facts of the operand vector + arm agreement with ==; non-trivial = specialisation / def-use"
+    ctx.rule = "instances = 36 kind pairs + negation/binding + freshness facts of the operand vector + arm agreement with ==; non-trivial = decision cases / def-use"
     ctx.trusted = ["spec/arms/strict_eq.json transcribes ECMA-262 7.2.15", "IEEE equality on doubles (1 == 1.0, 0 == -0)", "Vec<Value> elements are distinct objects"]
     spec = json.load(open(os.path.join(VERIF, "spec", "arms", "strict_eq.json")))["matrix"]
     from . import manifest as _MF
@@ -55,12 +56,16 @@ def run(ctx):
             ok, why = negation_of(facts, f_ne, f_eq)
             ctx.check(ok and not neg_ne and not neg_eq, "K1.negation", "!== is the exact negation of === (%s)" % cfg, "the predicate bound to `!==` is not !strict_eq(a, b): %s" % why, where=f_ne.where(), fn=f_ne.key, nontrivial=True)
         s2n = strnum.find_str_to_number(facts)
-        m = pairs.pair_matrix(roles, f_eq, str_to_number_key=s2n.key)
+        m = pairs.decision_matrix(roles, f_eq, str_to_number_key=s2n.key)
         ctx.floor("kind pairs (%s)" % cfg, len(m), 36)
+        ctx.floor("kind pairs read (%s)" % cfg, sum(1 for o in m.values() if not o.kind.startswith("UNREAD")), 1)
         for (a, b), o in sorted(m.items()):
             want = spec["%s,%s" % (a, b)]
-            ctx.check(o.kind == want, "K2.pair", "%s === %s (%s)" % (a, b, cfg), "%s === %s is decided as %s; ECMAScript: %s" % (a, b, o.kind, want), where=f_eq.where(), fn=f_eq.key, nontrivial=True,
-                      sample={"pair": "%s,%s" % (a, b), "outcome": o.kind} if a == b else None)
+            if o.kind.startswith("UNREAD"):
+                ctx.unread("K2.pair", "%s === %s (%s)" % (a, b, cfg), "the case for %s === %s is written in a form that is not read: %s" % (a, b, o.kind[7:-1]), where=f_eq.where(), fn=f_eq.key)
+                continue
+            ctx.check(o.kind == want, "K2.pair", "%s === %s (%s)" % (a, b, cfg), "%s === %s is decided as %s; ECMAScript: %s [%s]" % (a, b, o.kind, want, "; ".join(o.detail.get("rows", []))[:300]), where=f_eq.where(), fn=f_eq.key, nontrivial=True,
+                      sample={"pair": "%s,%s" % (a, b), "outcome": o.kind, "cases": o.detail.get("rows")} if a == b else None)
         # ---------------- K3
         raw = [callee_path(t) for bb in roles.unit(f_eq.key) for _, t in bb.calls() if re.search(r"^std::ptr::|^core::ptr::", callee_path(t) or "")]
         ctx.check(set(raw) <= {"std::ptr::eq"}, "K3.read-only-pointer", "the predicate's only pointer operation is ptr::eq (%s)" % cfg, "pointer operations: %s" % raw, where=f_eq.where(), fn=f_eq.key)
@@ -108,8 +113,11 @@ def run(ctx):
                 ctx.check(good, "K3.owned-by-conversion", "each operand is the evaluation result converted to an owned Value (%s)" % cfg, "per-argument closure does not return evaluate(..).map(Value::from)", where=ev.where(bi), fn=ev.key, nontrivial=True)
         # ---------------- K4
         b2, e2, f_abs, _, _ = bound_predicate(roles, "==")
-        ma = pairs.pair_matrix(roles, f_abs, str_to_number_key=s2n.key)
+        ma = pairs.decision_matrix(roles, f_abs, str_to_number_key=s2n.key)
         for (a, b), o in sorted(m.items()):
-            if o.kind not in ("CONST:false",):
+            if o.kind not in ("CONST:false",) and not o.kind.startswith("UNREAD"):
+                if ma[(a, b)].kind.startswith("UNREAD"):
+                    ctx.unread("K4.implies-abstract", "%s,%s (%s)" % (a, b, cfg), "the case of == for %s,%s is not read: %s" % (a, b, ma[(a, b)].kind[7:-1]), where=f_abs.where(), fn=f_abs.key)
+                    continue
                 ctx.check(ma[(a, b)].kind == o.kind, "K4.implies-abstract", "%s,%s: == uses the same direct comparison as === (%s)" % (a, b, cfg),
                           "=== decides %s,%s by %s but == by %s: strict equality would not imply abstract equality" % (a, b, o.kind, ma[(a, b)].kind), where=f_abs.where(), fn=f_abs.key, nontrivial=True)
